@@ -111,8 +111,15 @@ def append_attributes(*args: Tuple[str, Any]) -> Dict:
 
     for key, value in args:
         if key in result:
-            result[key] += " " + value
+            # NOTE: Numbers are rendered with `str()` by `attributes_to_string()`, so they are appended the same way
+            result[key] = _number_to_str(result[key]) + " " + _number_to_str(value)
         else:
             result[key] = value
 
     return result
+
+
+def _number_to_str(value: Any) -> Any:
+    if isinstance(value, (int, float)) and not isinstance(value, bool):
+        return str(value)
+    return value
